@@ -110,8 +110,12 @@ func (defaultSharedInitializeCaller) Call(s *slip.Scope, args slip.List, depth i
 	}
 	for k, sd := range obj.Type.initFormMap() {
 		if _, has := nameMap[k]; !has {
-			// If in the initForms then initform will not be nil.
-			obj.setSlot(s, sd, sd.initform.Eval(s, depth+1), depth)
+			// An initform of nil evaluates to nil.
+			var v slip.Object
+			if sd.initform != nil {
+				v = sd.initform.Eval(s, depth+1)
+			}
+			obj.setSlot(s, sd, v, depth)
 		}
 	}
 	return obj
